@@ -2,7 +2,8 @@ set -u
 export PASSAGE_REPO="$VP_RUN_REPO"
 sed -i "s#\"/repo#\"$VP_RUN_REPO#g" harness/Cargo.toml
 ./setup.sh > setup.log 2>&1 || { echo SETUP FAILED; tail -20 setup.log; exit 1; }
-for c in C11 C09 C13 C18 C05 C06 C01 C02 C03 C10 C07 C04 C08 C12 C19 C20 C15 C16 C17 C14; do
+LIST="${*:-C11 C09 C13 C18 C05 C06 C01 C02 C03 C10 C07 C04 C08 C12 C19 C20 C15 C16 C17 C14}"
+for c in $LIST; do
   echo "=== $c $(date +%T)"
   timeout 3h ./check $c --tier thorough 2>&1 | tail -6
 done
